@@ -7,7 +7,7 @@
     the free queue is duplicate-free and is exactly the set of inactive slots
     (released identifiers are reusable, none lost or duplicated); len() counts
     the stored rows; type-id lookup targets exist. *)
-From Brood Require Import Base World Multi BaseFacts Inv StepInv CloneEq SerdeL LenM LenFacts CloneFromW CloneFromWFacts.
+From Brood Require Import Base World Multi BaseFacts Inv StepInv CloneEq SerdeL LenM LenFacts CloneFromW CloneFromWFacts IndexBridge.
 
 Theorem C13_init : forall n res, Inv (empty_world n res).
 Proof. exact empty_world_inv. Qed.
@@ -98,3 +98,32 @@ Theorem C13_index_after_shape_change : forall w i a r b panics, WInv w ->
   WInv (pw_entry_remove w i a r b panics).
 Proof. exact entry_remove_under_panic_keeps_WInv. Qed.
 Print Assumptions C13_index_after_shape_change.
+
+(** ... and every reachable world is such a world: the identifier index of a world satisfying [Inv] satisfies
+    [WInv] ([pw_of] forgets values and generations and names archetypes by position).  So for EVERY history, every
+    identifier the world accepts and whatever Drop panics, the state [World::remove] leaves behind is consistent. *)
+Theorem C13_reachable_index : forall n res ops w, run (empty_world n res) ops = Some w -> WInv (pw_of w).
+Proof. intros n res ops w H. apply Inv_WInv. exact (C13_reachable n res ops w H). Qed.
+Check (C13_reachable_index : forall n res ops w, run (empty_world n res) ops = Some w -> WInv (pw_of w)).
+Print Assumptions C13_reachable_index.
+
+Theorem C13_reachable_remove_under_panic : forall n res ops w i a r panics,
+  run (empty_world n res) ops = Some w -> nth_error (pw_slots (pw_of w)) i = Some (Some (a, r)) ->
+  WInv (pw_remove (pw_of w) i a r panics).
+Proof.
+  intros n res ops w i a r panics H Hi. apply remove_under_panic_keeps_WInv; [|exact Hi].
+  exact (C13_reachable_index n res ops w H).
+Qed.
+Print Assumptions C13_reachable_remove_under_panic.
+
+(** The index-level removal is not a model of its own: [World::remove] of the logical layer — the one the
+    extracted model runs against the real library on every generated history — maps onto it under [pw_of],
+    for every world satisfying [Inv] and every identifier it resolves. *)
+Theorem C13_remove_is_index_remove : forall w e sh r w' o evs, Inv w -> get_loc w e = Some (sh, r) ->
+  do_remove w e = Some (w', o, evs) ->
+  pw_of w' = pw_remove (pw_of w) (fst e) (shape_index sh (w_archs w)) r false.
+Proof. exact remove_is_pw_remove. Qed.
+Check (C13_remove_is_index_remove : forall w e sh r w' o evs, Inv w -> get_loc w e = Some (sh, r) ->
+  do_remove w e = Some (w', o, evs) ->
+  pw_of w' = pw_remove (pw_of w) (fst e) (shape_index sh (w_archs w)) r false).
+Print Assumptions C13_remove_is_index_remove.
